@@ -25,7 +25,9 @@ def tree_record(rid, res, mode, dbg=None, max_events=6000):
     probes = []
     for p in t.get("probes", []):
         probes.append({"id": p["id"], "sub": p["sub"], "subev": p["subev"], "gs": opt(p["get_str"]), "gst": opt(p["get_str_trim"]),
-                       "ul": opt(p["unwrap_locate"]), "un": [x if x is not None else 0 for x in p["unwrap"]]})
+                       "ul": opt(p["unwrap_locate"]), "un": [x if x is not None else 0 for x in p["unwrap"]],
+                       "adv": p.get("adv", 0), "advrest": p.get("adv_rest", []), "advev": p.get("adv_ev", []),
+                       "other": p.get("other", 0), "multiit": p.get("multi_it", []), "multiev": p.get("multi_ev", [])})
     return {"id": str(rid), "kind": "tree", "mode": mode, "len": n, "nls": nls, "nonb": nonb,
             "kinds": t["kinds"], "locs": [opt(x) for x in t["locs"]], "tryloc": [opt(x) for x in t["try_loc"]],
             "ev": t["ev"], "iter": t["iter"], "probes": probes, "unsets": t.get("unwrap_sets", []),
